@@ -118,7 +118,8 @@ class Forest:
 
     def all_dies(self):
         for u in self.units:
-            yield from walk(u.root)
+            if u.root is not None:
+                yield from walk(u.root)
 
 
 def walk(d):
@@ -162,7 +163,7 @@ class Writer:
             tid = u.abbrev_table if u.abbrev_table is not None else ("private", ui)
             u._tid = tid
             tab = tables.setdefault(tid, {})
-            for d in walk(u.root):
+            for d in (walk(u.root) if u.root is not None else ()):
                 k = self.abbrev_key(d)
                 if k not in tab:
                     # sparse, non-monotonic codes to exercise the abbreviation lookup
@@ -325,7 +326,7 @@ class Writer:
     # ------------------------------------------------------------------ layout
     def unit_header(self, u, length):
         if u.version >= 5:
-            ut = u.unit_type if u.unit_type is not None else (3 if u.root.tag == DW_TAG["partial_unit"] else 1)
+            ut = u.unit_type if u.unit_type is not None else (3 if (u.root is not None and u.root.tag == DW_TAG["partial_unit"]) else 1)
             return self.p("IHBBI", length, u.version, ut, u.addr_size, u.abbrev_offset)
         return self.p("IHIB", length, u.version, u.abbrev_offset, u.addr_size)
 
@@ -357,7 +358,8 @@ class Writer:
                         body.append(0)
                     else:
                         assert not d.children
-                emit(u.root, None)
+                if u.root is not None:
+                    emit(u.root, None)      # a unit without root is header-only: no DIEs at all
                 hdr = self.unit_header(u, self.header_size(u) - 4 + len(body))
                 info += hdr + body
         return abbrev, bytes(info)
